@@ -2,7 +2,7 @@
 //! histories (inductive step obligations from an ARBITRARY state satisfying the invariant),
 //! local-histogram hand-over, timers.  Child module of src/histogram.rs.  Real std atomics.
 #![allow(dead_code, unused)]
-use super::__v_hist_c08::{mk_core, spec_first_fit, spec_strictly_increasing};
+use super::__v_hist_c08::{mk_core, mk_local, spec_first_fit, spec_strictly_increasing};
 use super::*;
 use crate::__vsup::*;
 
@@ -128,7 +128,7 @@ fn flush_step<const B: usize>() {
     // arbitrary well-formed local batch
     let l = Abs::<B>::any();
     kani::assume(l.count != 0 || (l.sum.to_bits() == 0));
-    let mut local = LocalHistogramCore { histogram: h.clone(), counts: l.buckets.to_vec(), count: l.count, sum: l.sum };
+    let mut local = mk_local(&h, l.buckets.to_vec(), l.count, l.sum);
     local.flush();
     let mut a2 = a;
     if l.count != 0 {
@@ -151,6 +151,7 @@ fn flush_step<const B: usize>() {
     // a second flush adds nothing
     local.flush();
     inv_holds(&h.core, &a2, hot, "flush2");
+    kani::cover!(true);
     core::mem::forget(local);
 }
 
@@ -283,7 +284,7 @@ fn c12_local_histogram_clone_clear_drop() {
     let l = Abs::<2>::any();
     kani::assume(l.count != 0 || l.sum.to_bits() == 0);
     let local = LocalHistogram {
-        core: RefCell::new(LocalHistogramCore { histogram: h.clone(), counts: l.buckets.to_vec(), count: l.count, sum: l.sum }),
+        core: RefCell::new(mk_local(&h, l.buckets.to_vec(), l.count, l.sum)),
     };
     // clone: empty, same target, original untouched
     let k = local.clone();
@@ -312,4 +313,77 @@ fn c12_local_histogram_clone_clear_drop() {
         }
         inv_holds(&h.core, &a2, hot, "drop");
     }
+    kani::cover!(true);
+}
+
+//@ id: c12_local_history_two_observations
+//@ prop: C12, C08
+//@ tier: quick
+//@ strength: bounded(B=2 buckets, history = fresh histogram; new local histogram; observe v1; observe v2; then flush or drop), complete in values
+//@ fn: histogram::LocalHistogram::observe, histogram::LocalHistogram::flush, histogram::LocalHistogramCore::new, histogram::LocalHistogramCore::observe, histogram::LocalHistogramCore::flush, histogram::Histogram::local, histogram::LocalHistogram::drop
+//@ obligation: built only through the public operations (no hand-made local state): after two local observations in ANY order of magnitude nothing has reached the shared histogram; flush (or drop) then hands over exactly those two observations -- each in its first-fit bucket, count 2 -- and a second flush adds nothing (the sums are the step obligation c03_flush_step)
+#[kani::proof]
+#[kani::unwind(4)]
+fn c12_local_history_two_observations() {
+    let bounds = any_inc_bounds::<2>();
+    let h = Histogram { core: Arc::new(mk_core(bounds.to_vec())) };
+    let local = h.local();
+    let v1: f64 = kani::any();
+    let v2: f64 = kani::any();
+    local.observe(v1);
+    local.observe(v2);
+    assert!(h.get_sample_count() == 0 && h.core.shards[0].count.get() == 0, "C12: a local observation reached the shared histogram before flush");
+    let mut exp = [0u64; 2];
+    if let Some(i) = spec_first_fit(&bounds, v1) {
+        exp[i] += 1;
+    }
+    if let Some(i) = spec_first_fit(&bounds, v2) {
+        exp[i] += 1;
+    }
+    let by_drop: bool = kani::any();
+    if by_drop {
+        drop(local);
+    } else {
+        local.flush();
+        local.flush();
+        assert!(local.get_sample_count() == 0, "C12.flush: local data not cleared");
+        core::mem::forget(local);
+    }
+    let s = &h.core.shards[0];
+    assert!(h.get_sample_count() == 2 && s.count.get() == 2, "C12: flush/drop did not hand over exactly the two accumulated observations (count)");
+    assert!(s.buckets[0].get() == exp[0] && s.buckets[1].get() == exp[1], "C12: flush/drop did not hand over exactly the accumulated bucket counts");
+}
+
+//@ id: c12_local_history_clear_clone
+//@ prop: C12
+//@ tier: quick
+//@ strength: bounded(B=2 buckets, history = fresh histogram; new local; observe v1; observe v2; then clear+flush+drop, or clone+drop clone), complete in values
+//@ fn: histogram::LocalHistogram::clear, histogram::LocalHistogram::clone, histogram::LocalHistogramCore::clear, histogram::LocalHistogram::drop
+//@ obligation: built only through the public operations: clear discards the pending data so that flush and drop hand over nothing; a clone taken while data is pending is empty (count 0 and every bucket 0) and dropping it hands over nothing, while the original keeps its pending data
+#[kani::proof]
+#[kani::unwind(4)]
+fn c12_local_history_clear_clone() {
+    let bounds = any_inc_bounds::<2>();
+    let h = Histogram { core: Arc::new(mk_core(bounds.to_vec())) };
+    let local = h.local();
+    let v1: f64 = kani::any();
+    let v2: f64 = kani::any();
+    local.observe(v1);
+    local.observe(v2);
+    let which: bool = kani::any();
+    if which {
+        local.clear();
+        local.flush();
+        drop(local);
+    } else {
+        let k = local.clone();
+        assert!(k.get_sample_count() == 0 && k.get_sample_sum().to_bits() == 0, "C12.clone: clone of a pending local histogram is not empty");
+        assert!(k.core.borrow().counts[0] == 0 && k.core.borrow().counts[1] == 0, "C12.clone: clone carries pending bucket counts");
+        drop(k);
+        assert!(local.get_sample_count() == 2, "C12.clone: cloning changed the original");
+        core::mem::forget(local);
+    }
+    let s = &h.core.shards[0];
+    assert!(h.get_sample_count() == 0 && s.count.get() == 0 && s.buckets[0].get() == 0 && s.buckets[1].get() == 0 && s.sum.get().to_bits() == 0,
+        "C12: cleared data or an empty clone reached the shared histogram");
 }
